@@ -3,7 +3,7 @@
    line.py, _stream.py; tied to /repo by harness/c01.py).  The inner one-shot codec (enc, dec) is arbitrary. *)
 From Coq Require Import List Arith.
 From EN Require Import Lib.Bytes Frame.Framer Frame.ReadUntil Frame.BufReadUntil Stream.Consumer Stream.SpecDecode
-  Proofs.C01_proofs.
+  Proofs.C01_proofs Proofs.Fixed_proofs.
 Import ListNotations.
 
 (* Copying consumer (StreamDataConsumer over read_until): for EVERY list of packets valid for the codec, EVERY way of
@@ -36,6 +36,38 @@ Theorem bconsumer_roundtrip :
                  bcons c' = None /\ balready c' = 0 /\ bexported c' = None.
 Proof. intros P sep keep_end enc dec limit sizehint Hne Hl pkts chunks fuel. exact (bconsumer_roundtrip_l sep keep_end enc dec Hne limit sizehint pkts chunks fuel Hl). Qed.
 Print Assumptions bconsumer_roundtrip.
+
+(* Fixed-size framing (FixedSizePacketSerializer / StructSerializer over read_exactly), copying consumer: for every
+   record size >= 1, every list of packets whose encoding has exactly that size and round-trips through the one-shot
+   codec, every chunking: exactly those packets, in order, once, nothing left over. *)
+Theorem fixed_size_roundtrip :
+  forall (P : Type) (size : nat) (enc : P -> bytes) (dec : decoder P),
+    1 <= size ->
+    forall (pkts : list P) (chunks : list bytes) (fuel : nat),
+      Forall (fun p => length (enc p) = size /\ dec (enc p) = Some p) pkts ->
+      Forall (fun ch => ch <> []) chunks ->
+      concat chunks = concat (map enc pkts) ->
+      length (concat (map enc pkts)) < fuel ->
+      cdeliver (rx_framer size dec) fuel (cinit _) chunks =
+        (@Build_cstate P (rx_framer size dec) [] None, map RPkt pkts).
+Proof. intros P size enc dec Hs pkts chunks fuel. exact (fixed_roundtrip_l size dec Hs enc pkts chunks fuel). Qed.
+Print Assumptions fixed_size_roundtrip.
+
+(* Fixed-size framing, any byte stream at all (malformed records included): the events delivered for any chunking are
+   those of record-by-record decoding, and the consumer keeps only the incomplete last record (< size bytes). *)
+Theorem fixed_size_chunk_independent :
+  forall (P : Type) (size : nat) (dec : decoder P),
+    1 <= size ->
+    forall (chunks : list bytes) (fuel : nat),
+      Forall (fun ch => ch <> []) chunks -> length (concat chunks) < fuel ->
+      exists c', cdeliver (rx_framer size dec) fuel (cinit _) chunks = (c', fst (fx_events size dec (concat chunks))) /\
+                 cbuf c' = [] /\ length (snd (fx_events size dec (concat chunks))) < size.
+Proof.
+  intros P size dec Hs chunks fuel Hne Hf.
+  destruct (xdeliver_spec size dec Hs chunks (cinit _) [] fuel (xrep_idle size dec) Hne Hf) as (c' & Hd & Hc').
+  exists c'. split; [exact Hd|]. split; [inversion Hc'; reflexivity | apply fx_tail_short; exact Hs].
+Qed.
+Print Assumptions fixed_size_chunk_independent.
 
 (* Non-vacuity: a concrete codec meets valid_pkt for every packet within the bound, and a 3-packet stream cut inside
    the separator is delivered. *)
